@@ -49,3 +49,26 @@ CASES = [
     dict(id='c12-benign-float-isinf', prop='C12', file=V, expect='silent',
          edits=[("  if math.isfinite(value):\n    return repr(value)", "  if not (math.isinf(value) or math.isnan(value)):\n    return repr(value)")]),
 ]
+
+_SV = 'fiddle/_src/codegen/auto_config/shared_to_variables.py'
+_CV = 'fiddle/_src/codegen/auto_config/complex_to_variables.py'
+_IM = 'fiddle/_src/codegen/import_manager.py'
+CASES += [
+    dict(id='c12-namer-without-fn-names-complex', prop='C12', file=_CV,
+         expect='violation', names='WMC.namer-scope',
+         edits=[("    names.update(naming.get_fn_existing_names(fn))\n", "")]),
+    dict(id='c12-benign-namer-union', prop='C12', file=_SV, expect='silent',
+         edits=[("""    names = copy.copy(task_existing_names)
+    names.update(naming.get_fn_existing_names(fn))
+""", """    names = set(task_existing_names) | naming.get_fn_existing_names(fn)
+""")]),
+    dict(id='c12-benign-enum-type-qualname', prop='C12', file=_IM,
+         expect='silent',
+         edits=[('      value_qualname = value.__class__.__qualname__ + "." + value.name',
+                 '      value_qualname = f"{type(value).__qualname__}.{value.name}"')]),
+    dict(id='c12-importable-uses-name', prop='C12',
+         file='fiddle/_src/codegen/py_val_to_cst_converter.py',
+         expect='violation', names='LIT.qualified-reference',
+         edits=[("    return dotted_name_to_cst(value.__qualname__)",
+                 "    return dotted_name_to_cst(value.__name__)")]),
+]
